@@ -252,6 +252,13 @@ def hook(ex, func, argv, frame):
         if items is None:
             raise Unsupported('into_iter of ' + repr(t))
         return True, Opaque('arriter', items=list(items), pos=0)
+    if g.endswith('as std::iter::Iterator>::size_hint') and isinstance(deref(a[0]), Opaque) and deref(a[0]).kind == 'arriter':
+        it = deref(a[0])
+        n = len(it.items) - it.pos
+        return True, Tuple([n, Some(n)])
+    if g.endswith('as std::iter::ExactSizeIterator>::len') and isinstance(deref(a[0]), Opaque) and deref(a[0]).kind == 'arriter':
+        it = deref(a[0])
+        return True, len(it.items) - it.pos
     if g.endswith('as std::iter::Iterator>::next') and isinstance(deref(a[0]), Opaque) and deref(a[0]).kind == 'arriter':
         it = deref(a[0])
         if it.pos < len(it.items):
